@@ -92,6 +92,8 @@ def build_learner(spec):
         return K.KwargsLearner(**kw)
     if kind == "lowbits":
         return K.LowBitsLearner(**kw)
+    if kind == "modrng":
+        return K.ModuleRandomLearner(**kw)
     if kind == "faulty":
         return K.FaultyLearner(**kw)
     if kind == "recording":
@@ -397,7 +399,9 @@ def gen_env_group(rng, idx, allow=("linear", "neighbors", "bandit", "tagged", "s
 
 
 def gen_learner(rng, idx):
-    k = weighted(rng, [("random", 2), ("eps", 3), ("ucb", 2), ("counter", 3), ("pmf", 3), ("kwargs", 1), ("corral", 1), ("info", 1.5), ("misguided", 2), ("lowbits", 1.5)])
+    k = weighted(rng, [("random", 2), ("eps", 3), ("ucb", 2), ("counter", 3), ("pmf", 3), ("kwargs", 1), ("corral", 1), ("info", 1.5), ("misguided", 2), ("lowbits", 1.5), ("modrng", 1.5)])
+    if k == "modrng":
+        return ["modrng", {"tag": f"mr{idx}"}]
     if k == "lowbits":
         return ["lowbits", {"tag": f"lb{idx}"}]
     if k == "misguided":
